@@ -28,15 +28,15 @@ Proof. intros i v W N. apply wf_b_wf in W.
 Print Assumptions fi_prims_inside.
 
 (* fi_next_prev_mono: for every finite x in [min,max], prev(x) is finite, inside [min,max] and
-   <= x; next(x) is finite, inside and >= x -- except next at x = -0.0 when step < ulp(-0.0) =
-   f64::EPSILON (see fi_next_prev_mono_refuted).  Both code paths are covered: `x +- step`
+   <= x; next(x) is finite, inside and >= x.  (Until /repo aed2bd1 next(-0.0) with step < ulp(-0.0) =
+   f64::EPSILON was the exception: UlpUtils::next_float(-0.0) returned -5e-324; repaired, see
+   fi_next_at_neg_zero below for the former witness.)  Both code paths are covered: `x +- step`
    (rounding monotonicity) and UlpUtils::next_float/prev_float = from_bits(to_bits(x) +- 1)
    (bit-level argument in Proofs/UlpBits.v).  Monotonicity in x (x <= y -> next x <= next y) is NOT
    proved (the branch taken depends on ulp(x) vs step). *)
 Theorem fi_next_prev_mono : forall i x, wf_b i = true -> fis_finite x = true ->
   fle (imin i) x = true -> fle x (imax i) = true ->
-  ((x <> Binary.B754_zero 53 1024 true \/ flt (istep i) (ulp_of x) = false) ->
-      inside i (fi_next i x) /\ fle x (fi_next i x) = true) /\
+  (inside i (fi_next i x) /\ fle x (fi_next i x) = true) /\
   inside i (fi_prev i x) /\ fle (fi_prev i x) x = true.
 Proof. intros i x W F L1 L2. apply wf_b_wf in W. split.
   - exact (fi_next_full i x W F L1 L2).
@@ -44,10 +44,10 @@ Proof. intros i x W F L1 L2. apply wf_b_wf in W. split.
 Print Assumptions fi_next_prev_mono.
 
 (* UlpUtils::next_float / prev_float on finite inputs: never NaN, strictly above / below the argument
-   (next_float(f64::MAX) = +inf, prev_float(f64::MIN) = -inf, prev_float(+-0.0) = -5e-324);
-   next_float(-0.0) = -5e-324 is the one exception. *)
+   (next_float(f64::MAX) = +inf, prev_float(f64::MIN) = -inf, prev_float(+-0.0) = -5e-324,
+   next_float(+-0.0) = 5e-324). *)
 Theorem ulp_next_prev_float_strict : forall x, fis_finite x = true ->
-  (x <> Binary.B754_zero 53 1024 true -> fcmp x (next_float x) = Some Lt) /\ fcmp (prev_float x) x = Some Lt.
+  fcmp x (next_float x) = Some Lt /\ fcmp (prev_float x) x = Some Lt.
 Proof. intros x F. split. exact (UlpBits.next_float_gt x F). exact (UlpBits.prev_float_lt x F). Qed.
 Print Assumptions ulp_next_prev_float_strict.
 
@@ -190,13 +190,14 @@ Proof. destruct w5_ok as (A & B & C). destruct (obs_some _ _ _ _ _ _ C) as (j & 
   exists w5_i, 1%Z, j. repeat split; auto. Qed.
 Print Assumptions tsm_f_no_invert_exact_refuted.
 
-(* next is not monotone and leaves the interval at x = -0.0 when step < f64::EPSILON:
-   UlpUtils::next_float(-0.0) = from_bits(0x8000000000000000 + 1) = -5e-324.  [0,1] step 1e-17. *)
-Theorem fi_next_prev_mono_refuted :
+(* the former witness of fi_next_prev_mono_refuted (next(-0.0) in [0,1], step 1e-17, went to -5e-324):
+   on the repaired code the call returns 5e-324, inside the interval and above its argument. *)
+Theorem fi_next_at_neg_zero :
   exists i x, wf_b i = true /\ fle (imin i) x = true /\ fle x (imax i) = true /\
-    flt (fi_next i x) x = true /\ flt (fi_next i x) (imin i) = true.
-Proof. destruct w6_ok as (A & B & C & _ & D & E). exists w6_i, w6_v. repeat split; auto. Qed.
-Print Assumptions fi_next_prev_mono_refuted.
+    to_bits x = 0x8000000000000000%Z /\ flt (istep i) (ulp_of x) = true /\
+    to_bits (fi_next i x) = 1%Z /\ flt x (fi_next i x) = true /\ fle (imin i) (fi_next i x) = true.
+Proof. destruct w6_ok as (A & B & C & D & E & F & G & H). exists w6_i, w6_v. repeat split; auto. Qed.
+Print Assumptions fi_next_at_neg_zero.
 
 (* ---------------------------------------------------------------- non-vacuity *)
 (* [-2.5, 10.5] with the default step 1e-6 and v = pi satisfy every hypothesis above (wf_b, magn_b),
